@@ -49,7 +49,7 @@ CHECKS = {
    note="Relaxations: cmd | getline may or may not count in NR; FILENAME for standard input is taken from its first observation; main input on stdin is not combined with getline < \"-\" or with commands that inherit stdin.",
    tech="deterministic simulation: generated operation histories over a simulated file world vs executable input-cursor model"),
  "C13": dict(cat="fault_enumeration", ref="5.5",
-   text="Generated programs over output operations (print/printf to stdout, '-', /dev/stdout, /dev/stderr, files with > and >>, commands with |; close, fflush, system, getline from names that are or were outputs, cmd | getline; exit, run-time errors; loops, functions, per-record rules, END) run against a simulated world: Config.Output as a bare sink, behind a real bufio.Writer of drawn size, or a sink with its own Flush; real files behind the OpenFile seam; stub child processes (sinks, talkers, sources, system children with statuses and signals) that report what they received over a control socket. Faults: standard output failing from byte k ('failat' scenarios enumerate every k of the fault-free output), flush-only failure, a file on /dev/full, a command that exits before reading. The destinations (file contents, bytes each command instance received, exact stdout stream incl. synchronous child output, /dev/stderr tokens, return values of close/fflush/system/getline, exit status, error/no-error) are compared with a reference model driven by the observed operation trace. Sampling plus enumeration of failure offsets.",
+   text="Generated programs over output operations (print/printf to stdout, '-', /dev/stdout, /dev/stderr, files with > and >>, commands with |; close, fflush, system, getline from names that are or were outputs, cmd | getline; exit, run-time errors; loops, functions, per-record rules, END) run against a simulated world: Config.Output as a bare sink, behind a real bufio.Writer of drawn size, or a sink with its own Flush; real files behind the OpenFile seam; stub child processes (sinks, talkers, sources, system children with statuses and signals) that report what they received over a control socket. Faults: standard output failing from byte k ('failat' scenarios enumerate every k of the fault-free output), flush-only failure, a file on /dev/full, a command that exits before reading. The destinations (file contents, bytes each command instance received, exact stdout stream incl. synchronous child output, /dev/stderr tokens, return values of close/fflush/system/getline, exit status, error/no-error) are compared with a reference model driven by the observed operation trace. One scenario in twelve runs the real goawk binary (goawk.go) as a process with real /bin/sh children, standard output on a file, a pipe, /dev/full or a pipe without reader, against a static model of files, command inputs, stdout, stderr tokens and exit status. Sampling plus enumeration of failure offsets.",
    note="The model is driven by the trace of started operations (control flow is not re-evaluated). Children that write to the shared stdout concurrently with the program are checked by content projection (letters vs digits). Known open finding F-C13-2 (flush-only failure swallowed). Files on /dev/full are excluded from content comparison.",
    tech="deterministic simulation: generated output histories x write-failure offsets x stub children vs trace-driven destination model"),
 }
